@@ -382,3 +382,33 @@ impl SymbolContext
         }
     }
 }
+
+
+
+#[cfg(hlorenzi_customasm_verif)]
+impl<T> SymbolManager<T>
+{
+    /// Verification hook: appends a declaration record without
+    /// registering its name in any lookup table.
+    pub fn verif_push_decl(
+        &mut self,
+        name: &str,
+        depth: usize,
+        ctx: SymbolContext)
+        -> util::ItemRef<T>
+    {
+        let item_ref = util::ItemRef::<T>::new(self.decls.len());
+
+        self.decls.push(SymbolDecl {
+            span: diagn::Span::new_dummy(),
+            name: name.to_string(),
+            kind: SymbolKind::Other,
+            depth,
+            ctx,
+            item_ref,
+            children: std::collections::HashMap::new(),
+        });
+
+        item_ref
+    }
+}
